@@ -473,3 +473,57 @@ Proof.
   exists r, r'. repeat split; auto. intros rb qb H1 H2. rewrite Hm, Hm'. unfold mult_spec. rewrite H1, H2.
   symmetry. apply mult_file_swap; assumption.
 Qed.
+
+(** ---------- C11: the order in which the per-contig vectors are moved into the final map is irrelevant ---------- *)
+Lemma inner_get_in (l : list (contig * lapper pair)) k v : NoDup (map fst l) -> (inner_get l k = Some v <-> In (k, v) l).
+Proof.
+  induction l as [|[k0 v0] r IH]; intros Hnd; cbn [inner_get map fst In] in *.
+  - split; [discriminate|contradiction].
+  - inversion Hnd as [|? ? Hnot Hr]; subst. destruct (contig_eqb k0 k) eqn:E.
+    + apply contig_eqb_eq in E. subst k0. split.
+      * intros [= <-]. left. reflexivity.
+      * intros [[= <-]|Hin]; [reflexivity|]. exfalso. apply Hnot. apply in_map_iff. exists (k, v). split; [reflexivity|exact Hin].
+    + rewrite (IH Hr). split; [intros H; right; exact H|].
+      intros [[= -> <-]|Hin]; [rewrite contig_eqb_refl in E; discriminate|exact Hin].
+Qed.
+
+Lemma inner_get_perm (l l' : list (contig * lapper pair)) k : NoDup (map fst l) -> Permutation l l' -> inner_get l k = inner_get l' k.
+Proof.
+  intros Hnd Hp. assert (Hnd': NoDup (map fst l')) by (eapply Permutation_NoDup; [apply Permutation_map; exact Hp|exact Hnd]).
+  destruct (inner_get l k) as [v|] eqn:E.
+  - apply (inner_get_in l k v Hnd) in E. symmetry. apply (inner_get_in l' k v Hnd'). eapply Permutation_in; eauto.
+  - destruct (inner_get l' k) as [v'|] eqn:E'; [|reflexivity].
+    apply (inner_get_in l' k v' Hnd') in E'. apply (Permutation_in _ (Permutation_sym Hp)) in E'.
+    apply (inner_get_in l k v' Hnd) in E'. congruence.
+Qed.
+
+Theorem liftover_order_free (inner inner' : list (contig * lapper pair)) rd qd iv : NoDup (map fst inner) -> Permutation inner inner' ->
+  liftover {| minner := inner; mref := rd; mqry := qd |} iv = liftover {| minner := inner'; mref := rd; mqry := qd |} iv.
+Proof. intros Hnd Hp. unfold liftover. cbn [minner]. rewrite (inner_get_perm inner inner' (ictg iv) Hnd Hp). reflexivity. Qed.
+
+Lemma ivmap_push_keys m k x : NoDup (map fst m) -> NoDup (map fst (ivmap_push m k x)).
+Proof.
+  induction m as [|[k0 v] r IH]; intros H; cbn [ivmap_push map fst].
+  - constructor; [intros []|constructor].
+  - inversion H as [|? ? Hnot Hr]; subst. destruct (contig_eqb k0 k) eqn:E; cbn [map fst]; [exact H|].
+    constructor; [|apply IH; exact Hr]. intros Hin. apply in_map_iff in Hin as ([k1 v1] & Hk & Hin). cbn in Hk. subst k1.
+    assert (Hkeys: forall m0, In (k0, v1) (ivmap_push m0 k x) -> k0 = k \/ In k0 (map fst m0)).
+    { induction m0 as [|[k2 v2] r2 IH2]; cbn [ivmap_push]; intros Hi.
+      - destruct Hi as [[= -> _]|[]]. left. reflexivity.
+      - destruct (contig_eqb k2 k) eqn:E2.
+        + destruct Hi as [[= -> _]|Hi]; [right; left; reflexivity|right; right; apply in_map_iff; exists (k0, v1); auto].
+        + destruct Hi as [[= -> _]|Hi]; [right; left; reflexivity|]. destruct (IH2 Hi) as [->|Hi2]; [left; reflexivity|right; right; exact Hi2]. }
+    destruct (Hkeys r Hin) as [->|Hi]; [rewrite contig_eqb_refl in E; discriminate|contradiction].
+Qed.
+Lemma push_pairs_keys ps : forall hm, NoDup (map fst hm) -> NoDup (map fst (push_pairs hm ps)).
+Proof.
+  induction ps as [|p ps IH]; intros hm H; cbn [push_pairs fold_left]; [exact H|].
+  apply IH. unfold push_pair. destruct (nonzero p); [apply ivmap_push_keys; exact H|exact H].
+Qed.
+(** the keys of the per-contig index of a built machine are distinct, so the theorem above applies to it *)
+Theorem build_keys_nodup f m : Forall sec_ok f -> build_secs f = Val (Ok m) -> NoDup (map fst (minner m)).
+Proof.
+  intros Hf Hb. destruct (build_secs_inv f m Hf Hb) as (b & -> & Hl & _ & _).
+  destruct (build_secs_loop_ok f Hf _ _ Hl) as [_ Hhm]. cbn [machine_of_bstate minner]. rewrite map_map. cbn [fst].
+  rewrite Hhm. apply push_pairs_keys. constructor.
+Qed.
